@@ -757,7 +757,38 @@ func (v *Verifier) externalModel(name string) *extModel {
 
 var extModels = map[string]*extModel{}
 
+func sortIfaceModel(name string) *extModel {
+	return &extModel{fn: func(fr *Frame, x *ssa.Call, args []*Val) []*Val {
+		box := args[0]
+		if tag, ok := box.S.Int64(); ok {
+			if t := fr.u.v.tagTypes[tag]; t != nil {
+				if sl, ok := t.Underlying().(*types.Slice); ok {
+					hdr := fr.st.load(t, box.Ref, IntLit(0))
+					if name == "sort.Sort" {
+						fr.checkWrite(x, hdr.Ref, hdr.Off, Mul(IntLit(sizeOf(sl.Elem())), hdr.Len))
+						seen := map[string]bool{}
+						for _, k := range cellKinds(sl.Elem()) {
+							if !seen[k] {
+								seen[k] = true
+								fr.st.setRow(k, hdr.Ref, Fresh("row!sorted", ArrS(IntS, kindSort(k))))
+							}
+						}
+						fr.u.assumed["sort.Sort: permutes the elements of its argument in place calling only Len/Less/Swap; if Less is a strict weak order the result is sorted by it (assumed; the element values after the call are unconstrained in this model)"] = true
+						return nil
+					}
+					fr.u.assumed["sort.IsSorted: reads its argument only; true exactly when no element is Less than its predecessor (assumed; result unconstrained in this model)"] = true
+					return []*Val{{K: VScalar, T: types.Typ[types.Bool], S: Fresh("issorted", BoolS)}}
+				}
+			}
+		}
+		unsup("%s on a value whose dynamic type is not statically known", name)
+		return nil
+	}}
+}
+
 func init() {
+	extModels["sort.Sort"] = sortIfaceModel("sort.Sort")
+	extModels["sort.IsSorted"] = sortIfaceModel("sort.IsSorted")
 	// sort.Slice(x, less): x is a slice boxed in an interface; its backing array is permuted.
 	// Assumed: less is pure, sort.Slice only swaps elements of x and terminates.
 	extModels["sort.Slice"] = &extModel{fn: func(fr *Frame, x *ssa.Call, args []*Val) []*Val {
